@@ -5,7 +5,7 @@ pvMoveBufferToHead / pvDeleteBuffer on fabricated lists and on every merge obser
 oracle: the property predicate evaluated inside harness.cpp on the real MemPool with a placement-policy manager."""
 import os, re
 
-GEN = ['gen_uintmath.json', 'gen_poolconst.json', 'gen_mempool.json', 'gen_pool32.json', 'gen_pooldata.json', 'gen_poolblk.json', 'gen_poolmerge.json']
+GEN = ['gen_uintmath.json', 'gen_poolconst.json', 'gen_mempool.json', 'gen_pool32.json', 'gen_pooldata.json', 'gen_poolblk.json', 'gen_poolmerge.json', 'gen_pooldel.json', 'gen_poolnb.json']
 BASE = 0x200000000000
 BCS = [1, 2, 3, 31, 32, 127]
 CFS = [0, 1, 16]
@@ -342,7 +342,8 @@ def oracle_lines(ctx, cases, lines):
         elif w[0] == 'nbuf':
             try:
                 bc, B, A, begin = int(w[1]), int(w[3]), int(w[4]), int(w[5])
-                fb, bo, first, bufoff, req, ok = map(int, out.split())
+                fb, bo, first, bufoff, req, ok = map(int, out.split()[:6])
+                extra = dict(t.split('=', 1) for t in out.split()[6:])
                 buffer = begin + bufoff
                 blocks = [buffer + (first + j) * B + (A if first + j >= 0 else 0) for j in range(bc)]
                 end = buffer + A + B * (bc + first)
@@ -358,6 +359,9 @@ def oracle_lines(ctx, cases, lines):
                 elif any(abs(x - y) < B for x in blocks for y in blocks if x is not y): why = 'blocks overlap'
                 elif any(p < begin or p + l > begin + req for (p, l) in meta): why = 'pool bookkeeping bytes outside the memory obtained'
                 elif any(p < b + B and b < p + l for (p, l) in meta for b in blocks): why = 'pool bookkeeping bytes overlap a block'
+                elif extra.get('bb') != '%d,%d' % (first, bc): why = 'BufferBytes of a new buffer are not (firstBlockIndex, blockCount): ' + str(extra.get('bb'))
+                elif extra.get('links') != 'null': why = 'prev / next of a new buffer are not null'
+                elif extra.get('ch') != ','.join([str(first + j + 1) for j in range(bc - 1)] + ['-128']): why = 'free chain of a new buffer is not first+1, first+2, ..., -128: ' + str(extra.get('ch'))
                 if why: bad.append((c, out, why))
                 else: ctx.nontrivial.add(c)
             except ValueError:
@@ -459,7 +463,7 @@ def measure(tv, fab, hist, u32, cases, lines):
 
 
 def replay(ctx, rp):
-    harness = ctx.cxx('harness.cpp', 'harness')
+    harness = ctx.cxx('harness.cpp', 'harness', flags=(('-O0', '-g0') if ctx.quick() else ()))     # quick tier: compile time (30 s -> 7 s) matters more than run time
     if harness is None:
         print('harness does not build'); return 2
     case = rp.get('case')
@@ -485,9 +489,11 @@ def run(ctx):
     ctx.assumptions += ['the memory manager returns addresses that are multiples of min(16, lowbit(blockAlignment)) (what pvGetAlignmentAddend assumes) and the block does not wrap around 2^64',
                         'blockCount*blockSize + 4*blockAlignment + 32 < 2^63 (pvCheckParams alone allows sizes for which pvGetBufferSize wraps, see NOTES.md)',
                         'one pool is used by one thread; MergeFrom operands use equal memory managers and equal parameters (MOMO_CHECKed)']
+    import concurrent.futures as _cf
+    _hb = _cf.ThreadPoolExecutor(1).submit(ctx.cxx, 'harness.cpp', 'harness', (('-O0', '-g0') if ctx.quick() else ()))   # built while Coq runs; quick tier: -O0 -g0 (30 s -> 7 s)
     ctx.regen(GEN)
     ctx.prove(timeout=3000)      # headroom for a cold build on a loaded machine
-    harness = ctx.cxx('harness.cpp', 'harness')
+    harness = _hb.result()
     if harness is None:
         ctx.stage('build-harness', False, getattr(ctx, 'last_cxx_error', ''))
         return ctx.finish(rule=RULE)
